@@ -256,11 +256,11 @@ def evaluate(rng, tier, judge, n_quick=150, n_thorough=1500, runs=3, cli_share=0
         r_via = hrng.random()
         via = "cli" if r_via < cli_share else "main" if r_via < cli_share + main_share else "api"
         plans.append((via, L.gen_history_scenario(hrng, via=via, runs=runs)))
-    # the kind-set history stratum (1 in 10 scenarios more, from a generator of its own): the truth stays, the SET of kinds given
+    # the kind-set history stratum (1 in 8 scenarios more, from a generator of its own): the truth stays, the SET of kinds given
     # varies from run to run (all three / the truth and one other kind, with and without the argparse target), truths with a
     # return entry included (`-> None` with a documented `:returns:` among them)
     srng = random.Random(rng.random())
-    for j in range(max(6, n // 10)):
+    for j in range(max(6, n // 8)):
         r_via = srng.random()
         via = "cli" if r_via < cli_share else "main" if r_via < cli_share + main_share else "api"
         plans.append((via, L.gen_kindset_history_scenario(srng, via=via, runs=runs)))
@@ -369,7 +369,7 @@ def evaluate(rng, tier, judge, n_quick=150, n_thorough=1500, runs=3, cli_share=0
                     "alternates after the regular runs while no file is edited, histories in which the SET of kinds given varies "
                     "(all three / the truth and one other) for truths with and without a return entry (`-> None` with a documented "
                     "`:returns:` included); "
-                    "plus 1 in 25 scenarios more that carry the shape of a recorded finding, plus 1 in 8 more of the history stratum, plus 1 in 10 more of the kind-set history stratum); "
+                    "plus 1 in 25 scenarios more that carry the shape of a recorded finding, plus 1 in 8 more of the history stratum, plus 1 in 8 more of the kind-set history stratum); "
                     "non-trivial = distinct scenario shape with at least one target on which the property held",
             "failures": failures, "histogram": dict(hist), "samples": samples}
 
